@@ -95,6 +95,14 @@ CHECKS = {
    design_ref='5 (C11), 4.4',
    note=TB + ' Board through a one-level abstract game; transposition table off; killer table and statistics arbitrary; clock free; no limits; capture-only list modelled as full list with non-captures rejected.',
    technique='symbolic execution of rustc MIR into z3 integer terms; inductive step with a window-search contract for recursive calls; path-by-path execution of the move orderer'),
+ 'C12': dict(
+   category='other',
+   text=('Mechanism level, not an end-to-end mate test: the real alpha_beta / alpha_beta_start are executed from MIR on one node WITH the transposition table active and holding an arbitrary entry (any score, stored depth, bound kind, stored move) for the node. '
+         'Assuming only that entries at least as deep as the request are sound for the node\'s true value (Exact ==, Lower <=, Upper >=; shallower ones are garbage), the result satisfies the window contract, every entry written is sound and carries the depth searched, '
+         'the root picks exactly the best child value (so a mated child is always preferred and an avoidable mate-in-one never allowed) and stores it as Exact. Induction over height and over the sequence of searches gives: a cache filled by this code never changes a result beyond the window contract.'),
+   design_ref='5 (C12)',
+   note=TB + ' One node with <= 2 generated moves. Idealisation stated: one true value per node once the depth suffices (exact for mate scores, which is why the property speaks of mates). Outside: hash collisions, mate distances reused at another distance from the root, comparison with an oracle on real tactical positions.',
+   technique='symbolic execution of rustc MIR into z3; inductive step with an arbitrary cache entry and the fail-soft window contract for nested searches'),
  'C13': dict(
    category='other',
    text=('The same one-node inductive step as C11, but the search may be cut anywhere: the running flag may be cleared at every poll, all limits are symbolic, and every nested '
